@@ -206,6 +206,13 @@ def shape(e, roles=None, depth=20):
                 return xs
             return "%s[%s]" % (xs, is_)
         parts = [shape(a, roles, depth - 1) for a in e.args]
+        if cid == "Option::unwrap_or" and len(parts) == 2 and len(e.args) == 2:
+            a0 = e.args[0]
+            while isinstance(a0, Named) and a0.local not in roles:
+                a0 = a0.x
+            if isinstance(a0, Call) and callee_id(a0.t) == "Option::map" and len(a0.args) == 2:
+                # opt.map(f).unwrap_or(d) is opt.map_or(d, f)
+                return "Option::map_or(%s,%s,%s)" % (shape(a0.args[0], roles, depth - 1), parts[1], shape(a0.args[1], roles, depth - 1))
         if cid == "Option::map" and len(parts) == 2 and parts[1] == "\u03bb(p1)":
             return parts[0]  # mapping a reference conversion over an option keeps the value
         if cid in ("Option::as_deref", "Option::as_deref_mut") and len(parts) == 1:
